@@ -79,7 +79,7 @@ pub struct UncheckedAccount<'info> { pub k: &'info Pubkey, pub writable: bool }
 impl<'info> UncheckedAccount<'info> {
     pub fn to_account_info(&self) -> (r: AccountInfo<'info>) ensures *r.key == *self.k, r.is_writable == self.writable { AccountInfo { key: self.k, is_signer: false, is_writable: self.writable } }
 }
-pub struct ClockData { pub unix_timestamp: i64 }
+pub struct ClockData { pub slot: u64, pub epoch_start_timestamp: i64, pub epoch: u64, pub leader_schedule_epoch: u64, pub unix_timestamp: i64 }
 pub uninterp spec fn now_unix() -> i64;
 pub struct Clock {}
 impl Clock {
